@@ -14,7 +14,7 @@ PPV_FUNCS_GEN = "ppv_lite86::generic::* (u32x4_generic, u64x2_generic, u128x1_ge
 CH_CORE = "c2_chacha::guts::{round, diagonalize, undiagonalize, refill_wide_impl, refill_wide, refill_narrow, refill_narrow_rounds, d0123, add_pos, ChaCha::{output_narrow, inc_block_ct, pos64, refill, refill4, refill_rounds}}"
 CH_BUF = "c2_chacha::rustcrypto_impl::{Buffer::try_apply_keystream, seek64, seek32, ChaChaAny::{new, seek, try_apply_keystream, try_seek, try_current_pos}, init_chacha, init_chacha_x}"
 CH_PAR = "c2_chacha::guts::ChaCha::{new, set_stream_param, get_stream_param, stream32_eq, stream64_eq}"
-SHAPE_BOUND = "try_apply_keystream: per-call (buffer fill, length) shapes enumerated concretely, length <= 448 bytes (7 blocks + buffered bytes); counter, keystream, data, histories unbounded/symbolic"
+SHAPE_BOUND = "try_apply_keystream: per-call (buffer fill, length) shapes enumerated concretely, length <= 512 bytes (8 blocks incl. two wide 4-block chunks; quick: <= 321); counter, keystream, data, histories unbounded/symbolic"
 
 
 def CHACHA_RULES(kind):
